@@ -94,3 +94,10 @@ CHECKS["C07"] = dict(
  text="Five closure templates (a module variable captured by several closures incl. modify, plain local assignment and passing a closure as argument; a counter factory with two instances, re-creation and closure aliasing; three nesting levels with a closure created by a closure; closures created in a method, stored in a list and passed as arguments; the shadowing family) explored breadth-first over histories of up to 9 (quick) / 14 (thorough) operations or to the fix-point, each transition executed on the real CLI. In addition a capture-site matrix: the captured variable is used only inside one of 33 AST node kinds (operands, call / method arguments, list / map literals, index, if / else-if / while conditions, from start / bound / step, or primary / fallback, ?= source, nested closures, modify in blocks and loops, local shadow ...) with the closure created 1-3 levels below the owner (module, function, method) and the owner assigning after creation.",
  note="Functions are never printed; is_closure() is part of the alphabet. The model's capture rule (free variables of the body that are visible at creation) is validated by the check itself.",
  design_ref="DESIGN.md section 4, C07")
+
+CHECKS["C08"] = dict(
+ category="model_checking",
+ technique="explicit-state breadth-first search over construction / aliasing / method-call / field-access histories on class graphs (model = reference interpreter with records of cells, states de-duplicated on observer expressions, every transition replayed on the real CLI)",
+ text="Two class graphs: Node/Leaf (scalar, list, self-referential optional and class-typed fields; constructor with parameter; methods with parameters and results, a method returning Self, chained calls, a method calling another method) and Pair/Leaf (object-valued constructor parameters, swapping, fresh sub-objects). Alphabet: construct, alias, pass to a function, return from a function, store in / read from a list, call each method on each reference, read and write fields (incl. through a sub-object and sharing a sub-object between two owners), `is` on every pair of references. BFS to depth 3 (quick, ~850 states / 4 700 transitions) / depth 5 (thorough); state de-duplication on 27 (resp. 22) observer expressions exposing every field, every identity relation and the link structure.",
+ note="Objects are never printed. == on objects is rejected by the compiler and is not part of the alphabet.",
+ design_ref="DESIGN.md section 4, C08")
